@@ -203,7 +203,7 @@ func suiteRespPath(e *vh.Env) {
 	sem := make(chan struct{}, 8)
 	var wg sync.WaitGroup
 	for i := 0; i < n; i++ {
-		if !e.Want(i) || e.Failed() {
+		if !e.Want(i) || e.FailedExcept("C02:user-agent-rewritten-by-request-write") {
 			continue
 		}
 		wg.Add(1)
@@ -352,7 +352,7 @@ func suiteReqPath(e *vh.Env) {
 	sem := make(chan struct{}, 8)
 	var wg sync.WaitGroup
 	for i := 0; i < n; i++ {
-		if !e.Want(i) || e.Failed() {
+		if !e.Want(i) || e.FailedExcept("C02:user-agent-rewritten-by-request-write") {
 			continue
 		}
 		wg.Add(1)
